@@ -424,3 +424,20 @@ Lemma iso8601_display_whole_second_witness :
   exists e, weekday e <> None /\ nanos_of (compute_gregorian (dur e) (scale e)) = 0 /\
             formatter_new e (predefined_by_index 0) <> ROk (display_epoch e).
 Proof. exists (mkE (mkD 0 0) TAI). repeat split; vm_compute; discriminate. Qed.
+
+(* ---- C09: the default text form prints exactly the civil fields of the spec ---- *)
+From HF Require Import Civil LeapSpec GregorianP.
+Local Notation D := 86400000000000 (only parsing).
+Lemma ts_name_spec t : ts_name t = spec_scale_name t.
+Proof. destruct t; vm_compute; reflexivity. Qed.
+Theorem display_epoch_text d t : canon d ->
+  let w := val d + spec_gregorian_zero (ts_id t) in MINV <= w <= MAXV ->
+  display_epoch (mkE d t) =
+    (let '(y, m, dd) := civil_of_days (w / D) in let '(h, mi, s, ns) := tod_fields (w mod D) in spec_epoch_text y m dd h mi s ns t).
+Proof.
+  intros C w R. unfold display_epoch, gregorian_str. cbn [dur scale].
+  rewrite (compute_gregorian_spec d t C R). fold w.
+  destruct (civil_of_days (w / D)) as [[y m] dd]. destruct (tod_fields (w mod D)) as [[[h mi] s] ns].
+  unfold render_fields, nanos_of, spec_epoch_text. rewrite ts_name_spec.
+  destruct (ns =? 0); cbn [negb]; rewrite <- ?app_assoc; reflexivity.
+Qed.
